@@ -1870,3 +1870,22 @@ func RawJSON(sb *strings.Builder, v Val) bool {
 	}
 	return true
 }
+
+// GenPlainSchema: a type built from typed maps, lists, map-represented structs (all fields required, no renames) and
+// scalars only — the typed builders whose call protocol coincides with the generic one (C12, C01).
+func GenPlainSchema(r *Rand, depth int) *SType {
+	if depth >= 3 || r.Chance(1, 3) && depth > 0 {
+		return &SType{K: []string{"bool", "int", "float", "str", "bytes", "link"}[r.Intn(6)], Name: freshTypeName("P")}
+	}
+	switch r.Intn(3) {
+	case 0:
+		return &SType{K: "list", Name: freshTypeName("P"), Elem: GenPlainSchema(r, depth+1), Nullable: r.Chance(1, 4)}
+	case 1:
+		return &SType{K: "map", Name: freshTypeName("P"), Elem: GenPlainSchema(r, depth+1), Nullable: r.Chance(1, 4)}
+	}
+	t := &SType{K: "struct", Name: freshTypeName("P"), SRepr: "map"}
+	for _, n := range pickDistinct(r, fieldNames, 1+r.Intn(4)) {
+		t.Fields = append(t.Fields, SField{Name: n, Rename: n, Nullable: r.Chance(1, 5), T: GenPlainSchema(r, depth+1)})
+	}
+	return t
+}
